@@ -18,6 +18,10 @@ structure St where
   cfg : Cfg := {}
   reg : Registry := Registry.new (Store.new [] 1 0 1 0) []
   ckpt : Option DB := none
+  -- the set-based specification (`Timers.Spec`), run alongside: by `C10.registry_refines_spec` / `restore_pending` its
+  -- outputs equal the model's; if a regenerated fact breaks that, the deviating line is emitted as `#spec`
+  spec : Spec := Spec.new []
+  specCkpt : Option (List (Bytes × Int)) := none
 
 def intOr (s : String) : Int := s.toInt?.getD 0
 
@@ -30,7 +34,7 @@ def initSt (hdr : List String) : St :=
   match hdr with
   | ["M", _, kgc, start, stop, cache, runners] =>
     let c : Cfg := ⟨natOr kgc, natOr start, natOr stop, natOr cache, natOr runners⟩
-    { cfg := c, reg := freshReg c [] }
+    { cfg := c, reg := freshReg c [], spec := Spec.new (runnerIds c.runners) }
   | _ => {}
 
 /-- canonical order for printing: by timestamp, ties by subject key bytes -/
@@ -46,28 +50,43 @@ def sortFired (l : List (Bytes × Int)) : List (Bytes × Int) := l.foldr insertF
 def showFired (l : List (Bytes × Int)) : String :=
   if l.isEmpty then "-" else joinWith "," ((sortFired l).map fun p => s!"{p.2}:{toHex p.1}")
 
+/-- model line, with the specification's line attached when they differ -/
+def withSpec (model spec : String) : String :=
+  if model == spec then model else s!"{model} #spec {spec} #kf spec-deviation"
+
+def specEarliest (sp : Spec) : String :=
+  match sp.pending with
+  | [] => "none"
+  | p :: ps => s!"t={ps.foldl (fun m q => if q.2 < m then q.2 else m) p.2}"
+
 def step (st : St) : List String → St × String
   | ["set", k, t] =>
     let key := hexOr k
     if !st.reg.store.owns key then (st, "notowned") else
-    ({ st with reg := st.reg.setTimer key (intOr t) }, "ok")
+    ({ st with reg := st.reg.setTimer key (intOr t), spec := st.spec.setTimer key (intOr t) }, "ok")
   | ["put", k, t] =>
     let key := hexOr k
     if !st.reg.store.owns key then (st, "notowned") else
-    ({ st with reg := { st.reg with store := st.reg.store.put key (intOr t) } }, "ok")
+    let p := (key, intOr t)
+    ({ st with reg := { st.reg with store := st.reg.store.put key (intOr t) },
+               spec := if st.spec.pending.contains p then st.spec else { st.spec with pending := p :: st.spec.pending } }, "ok")
   | ["adv", i, wm] =>
     let r := st.reg.advance s!"sr{natOr i}" (intOr wm)
-    ({ st with reg := r.1 }, s!"c={r.1.wm} f={showFired r.2}")
+    let sp := st.spec.advance s!"sr{natOr i}" (intOr wm)
+    ({ st with reg := r.1, spec := sp.1 },
+      withSpec s!"c={r.1.wm} f={showFired r.2}" s!"c={sp.1.wm} f={showFired sp.2}")
   | ["earliest"] =>
     match st.reg.store.earliest with
-    | none => (st, "none")
-    | some k => (st, s!"t={(timerOf k).2}")
-  | ["dbcount"] => (st, toString st.reg.store.timerKeys.length)
-  | ["ckpt"] => ({ st with ckpt := some st.reg.store.db }, "ok")
+    | none => (st, withSpec "none" (specEarliest st.spec))
+    | some k => (st, withSpec s!"t={(timerOf k).2}" (specEarliest st.spec))
+  | ["dbcount"] => (st, withSpec (toString st.reg.store.timerKeys.length) (toString st.spec.pending.length))
+  | ["ckpt"] => ({ st with ckpt := some st.reg.store.db, specCkpt := some st.spec.pending }, "ok")
   | ["restore"] =>
     match st.ckpt with
     | none => (st, "nockpt")
-    | some db => ({ st with reg := freshReg st.cfg db }, "ok")
+    | some db =>
+      ({ st with reg := freshReg st.cfg db,
+                 spec := ⟨st.specCkpt.getD [], Wm.Ups.init (runnerIds st.cfg.runners), Wm.zeroTime⟩ }, "ok")
   | _ => (st, "bad-op")
 
 def handle (lines : Array String) (i : Nat) (out : Array String) : Nat × Array String :=
